@@ -88,7 +88,7 @@ def run(tier, rep):
     thorough = tier == 'thorough'
     with Scratch() as sc:
         # (a)
-        N = 4 if thorough else 3
+        N = 3
         ref = ebnf_tokens.reference_dfa()
         files = c05.scan_files(sc, ref, [(0, 0)], c14N=N)
         res = run_gosym(c05.base_cfg(files, 'harnessC14Scan', tier, concretize=[c05.PKG + '.advanceDFA']), sc, 'scan', timeout=4 * 3600)
@@ -101,7 +101,7 @@ def run(tier, rep):
         merge_gosym(rep, res, '(b) ast.Parse with its real actions on every token sequence of <= %d tokens: no panic, no success with a nil result' % K)
         c11.handle_ast(rep, res, afs, extra, sc, 'C14')
         # (b2) the whole spec.Parse
-        KS = 8 if thorough else 7
+        KS = 7
         sfs, extra = lr.spec_files(sc, specK=KS)
         res = run_gosym(lr.spec_cfg(sfs, extra, 'harnessC14SpecTokens', tier), sc, 'spec', timeout=4 * 3600)
         merge_gosym(rep, res, '(b2) spec.Parse (all semantic actions, symbol table, Verify) on every token sequence of <= %d tokens' % KS)
@@ -114,7 +114,7 @@ def run(tier, rep):
             else:
                 rep.inconc('counterexample did not reproduce natively: ' + what)
         # (c)
-        NP = 4 if thorough else 3
+        NP = 3
         fs = c09.files(sc, NP)
         res = run_gosym(c09.cfg(fs, 'harnessC14Pattern', tier, opaque_pkgs=['math/rand'], max_steps=80000000,
                                 init_pkgs=[c09.PKG, MODULE + '/internal/regex/parser', MODULE + '/internal/verif', 'github.com/moorara/algo/...', 'io']), sc, 'pattern', timeout=4 * 3600)
